@@ -1,10 +1,11 @@
 """Translator: control-flow skeleton of Wtp.expand (and its nested functions)
 with respect to self.expand_stack -> coq/Gen/GenSkeleton.v.  Fail-closed: any
 use of expand_stack or any statement kind it does not understand is an error."""
+import os
 import ast
 from pathlib import Path
 
-REPO = Path("/repo")
+REPO = Path(os.environ.get("VERIF_REPO", "/repo"))
 SRC = REPO / "src/wikitextprocessor/core.py"
 SRC_LUA = REPO / "src/wikitextprocessor/luaexec.py"
 LEAK_ATTRS = {"lua_invoke"}          # calls into the Lua runtime: callbacks may be aborted inside (pcall swallows)
